@@ -9,6 +9,9 @@ import (
 type ParserData struct {
 	code      []ByteCode
 	codeIndex int
+	// set when an instruction did not fit into a code block (8192 instructions);
+	// the program cannot be run then: its tail is missing and its jumps are not patched
+	codeOverflow bool
 
 	Config        RollConfig
 	flagsStack    []RollConfig
@@ -82,7 +85,7 @@ func (e *ParserData) checkStackOverflow() bool {
 			copy(newCode, e.code)
 			e.code = newCode
 		} else {
-			// e.Error = errors.New("E1:指令虚拟机栈溢出，请不要发送过长的指令")
+			e.codeOverflow = true
 			return true
 		}
 	}
